@@ -212,6 +212,23 @@ func applyDocEdit(doc *JV, op Op) bool {
 		}
 	case "rmcode":
 		return doc.Del("code")
+	case "addons":
+		if doc.Get("lines") == nil || doc.Get("supplier") == nil {
+			return false
+		}
+		doc.Set("$addons", &JV{K: 'a', A: []*JV{JStr(op.S2)}})
+		return true
+	case "pricesinclude":
+		t := doc.Get("tax")
+		if doc.Get("lines") == nil {
+			return false
+		}
+		if t == nil {
+			t = &JV{K: 'o'}
+			doc.Set("tax", t)
+		}
+		t.Set("prices_include", JStr(op.S2))
+		return true
 	}
 	return false
 }
